@@ -62,8 +62,9 @@ def jobs(tier, seed):
                                                          'P7', 'P8', 'P11']):
       for i, el in enumerate(ELIGS.get(panel, [None])):
         for sym in (['k'], ['k', 'tsize'], ['k', 'vol'], ['k', 'share']):
-          if panel != 'P1' and len(sym) > 1 and tier == 'quick':
-            continue
+          if panel != 'P1' and len(sym) > 1 and (tier == 'quick' or sym[1] in (
+              'share', 'vol')):
+            continue   # 4-geo panels: n_designs alone / with a size range
           for h in (None, 'second', 'second_k'):
             name = 's-%s-%s-%s-e%d%s' % (panel, m, '+'.join(sym), i,
                                          '-' + h if h else '')
